@@ -299,6 +299,10 @@ impl Driver {
         if !self.stopped {
             match self.world.observe() {
                 Ok(obs) => {
+                    if let Some(msg) = self.world.range_forms.take() {
+                        self.fail(conf_prop, "range-forms-disagree", format!("after {}: {}", op.short(), msg));
+                        self.stopped = true;
+                    }
                     let want = self.model.to_obs();
                     if obs != want {
                         let d = obs.diff(&want);
@@ -400,6 +404,12 @@ impl Driver {
                         self.fail("C12", "batch-partially-applied", format!("{} appended {} records in one call; {} of them are in the queue afterwards", op.short(), lens.len(), added));
                     }
                 }
+            }
+        }
+        // and no restart may expose a batch with a hole or a missing tail
+        if self.keep_obs && matches!(op, Op::Restart { .. }) && self.steps.len() > 1 {
+            if let Some(msg) = crate::crash::batch_atomicity(self, self.steps.len() - 1, obs) {
+                self.fail("C12", "batch-torn-after-clean-restart", format!("after {}: {msg}", op.short()));
             }
         }
         self.seen_next = obs.queues.iter().map(|(n, q)| (n.clone(), q.last_position.map(|p| p + 1).unwrap_or(0))).collect();
